@@ -4,27 +4,27 @@ import json, os, sys
 HERE = os.path.dirname(os.path.dirname(os.path.abspath(__file__)))
 
 # id -> (engine, category, technique, level text, level note, design ref)
-SCOPE_NOTE = "quick: all 818 976 grammars of G(2,2,3,3) (2 nonterminals, 2 terminals, <=3 productions of length <=3; unreachable, unproductive, nullable, cyclic, ambiguous ones included) plus the 1-edit neighbourhoods of 11 seed grammars (LALR-not-SLR, LR(1)-not-LALR, dangling else, expression grammars, ...); thorough adds G(2,3,4,2), G(3,2,4,2), G(2,2,4,3)/sym, G(1,3,4,3), G(3,3,3,2)/sym and 2-edit neighbourhoods. Every grammar is rendered under a rotating presentation (struct/enum, named/tuple, `_` fields, declaration order, naming order)."
-REAL_NOTE = "Real-code layer: every accepted grammar of G(2,2,3,2)/sym (quick; thorough: G(2,2,3,2), G(1,2,3,3), G(2,2,2,3), G(2,3,3,2), G(3,2,3,2), 1-edit neighbourhoods of the seeds) is emitted by the real generate, compiled by rustc and its real parse is run on every word of the input trie (depth 7 for 2 terminals) through a lazy counting iterator, a constant-payload iterator and a Vec, under catch_unwind with a time limit. Model layer: an interpreter of the tables and reduce-function facts extracted from the emitted text explores all configurations over the tries of every accepted grammar of the C04 scopes in lock-step with the reference LR(1) driver and Earley; it is bound to the code by comparing its trace with the real observation on every (grammar, word) of the real-code scope; if it diverges or cannot be extracted it is declared unbound and only the real layer decides."
+SCOPE_NOTE = "quick: all 818 976 grammars of G(2,2,3,3) (2 nonterminals, 2 terminals, <=3 productions of length <=3; unreachable, unproductive, nullable, cyclic, ambiguous ones included) plus the 1-edit neighbourhoods of 11 seed grammars (LALR-not-SLR, LR(1)-not-LALR, dangling else, expression grammars, ...); thorough adds G(2,3,4,2), G(3,2,4,2), G(2,2,4,3)/sym, G(1,3,4,3), G(3,3,3,2)/sym and 2-edit neighbourhoods. Every grammar is rendered under a rotating presentation (struct/enum, named/tuple, `_` fields, declaration order, naming order). Added as named members, not as exhaustive scopes: the scaled families (grammars large in exactly one dimension - up to 59 precedence levels, right-hand sides of up to 600 symbols, enums of 300 variants, 456 states, unit chains of 249 nonterminals, conflicting grammars with states of 300 and more items; sizes straddle 10, 17, 33, 65, 129, 257, 514) and the name-relation space (all ordered pairs of related names - prefixes, case / underscore / digit variants of one another - in 16 pairs of roles)."
+REAL_NOTE = "Real-code layer: every accepted grammar of G(2,2,3,2)/sym (quick; thorough: G(2,2,3,2), G(1,2,3,3), G(2,2,2,3), G(2,3,3,2), G(3,2,3,2), 1-edit neighbourhoods of the seeds) is emitted by the real generate, compiled by rustc and its real parse is run on every word of the input trie (depth 7 for 2 terminals) through a lazy counting iterator, a constant-payload iterator and a Vec, under catch_unwind with a time limit. Model layer: an interpreter of the tables and reduce-function facts extracted from the emitted text explores all configurations over the tries of every accepted grammar of the C04 scopes in lock-step with the reference LR(1) driver and Earley; it is bound to the code by comparing its trace with the real observation on every (grammar, word) of the real-code scope; if it diverges or cannot be extracted it is declared unbound and only the real layer decides. Both layers also run the scaled families (word depth up to 602) and the name-relation space."
 CHECKS = {
  "C07": ("E1+E4 totality sweep", "exploration",
          "bounded-exhaustive exploration of four input families through the real generate in child processes with a per-input watchdog, plus bound probes",
-         "No panic, abort or hang on: (a) every string of <=5 (quick) / <=7 (thorough) symbols over a 30-symbol alphabet (one representative per lexer character class and UTF-8 length); (b) every viable token-kind prefix of the Kiki grammar to depth 13 / 16 and every one-token extension, rendered to text; (c) every file of <=3 / <=4 items over the 204-item alphabet of C10 (all combinations of static violations); (d) every grammar of the C04 scopes (variant-less enums, no terminals, unreachable/unproductive nonterminals); (e) 25 bound probes at the stated bounds (2000 declarations, 64 KiB, nesting 256), each in its own process. A child that dies is re-run sequentially in trace mode to attribute the abort to an input.",
+         "No panic, abort or hang on: (a) every string of <=5 (quick) / <=7 (thorough) symbols over a 30-symbol alphabet (one representative per lexer character class and UTF-8 length); (b) every viable token-kind prefix of the Kiki grammar to depth 13 / 16 and every one-token extension, rendered to text; (c) every file of <=3 / <=4 items over the 204-item alphabet of C10 (all combinations of static violations); (d) every grammar of the C04 scopes (variant-less enums, no terminals, unreachable/unproductive nonterminals); (e) 25 bound probes at the stated bounds (2000 declarations, 64 KiB, nesting 256), each in its own process; (f) 8 growth series (generic nesting, nonterminal chains, precedence levels, attributes ...) run at sizes 4, 8, ... 64 in single-threaded children: a factor above 12 in CPU time between consecutive sizes is exponential growth and a violation (kiki's own n^5 construction stays below 2.5); also every naming of C05, the name-relation space, the scaled families and the large single-violation files of C10. A child that dies is re-run sequentially in trace mode to attribute the abort to an input.",
          "Between the small scopes and the bound probes the claim rests on the small-scope hypothesis; a probe that exceeds its time limit is inconclusive, never a violation (the automaton construction is polynomial of high degree).",
          "DESIGN.md section 3, C07"),
  "C08": ("E4 textsweep", "exploration",
          "bounded-exhaustive exploration of all strings over a symbol alphabet; oracle: independent reference lexer (R-lex)",
-         "Every string of <=5 (quick) / <=7 (thorough) symbols over the 30-symbol alphabet, plus the repository's grammar files and hand-picked maximal-munch / attribute cases: if R-lex tokenises the string, the real tokenizer (hook) must return the same (kind, text, position) vector and generate must not report a lexical error; if R-lex rejects at (i, c), both must report exactly Lex(i, c).",
+         "Every string of <=5 (quick) / <=6 (thorough, plus a budgeted pass over <=7 reported as its own scope) symbols over the 30-symbol alphabet, every Unicode scalar value in 10 lexer contexts, runs of one symbol of lengths 6..40 and around 2^6..2^16 (bare, in attributes, after identifiers), plus the repository's grammar files and hand-picked maximal-munch / attribute cases: if R-lex tokenises the string, the real tokenizer (hook) must return the same (kind, text, position) vector and generate must not report a lexical error; if R-lex rejects at (i, c), both must report exactly Lex(i, c).",
          "R-lex (appendix B) is the reading of the documented rules; longer strings rest on the small-scope hypothesis (9-state tokenizer).",
          "DESIGN.md section 3, C08"),
  "C09": ("E4 textsweep", "model_checking",
          "explicit-state exploration of the front-end parser's input trie (viable-prefix DFS with Earley over the hand-transcribed Kiki grammar), every node executed through the real generate; plus table isomorphism of parser.rs",
-         "Every viable token-kind prefix to depth 15 (quick) / 18 (thorough) and every one-token extension is rendered to text (two lexeme lengths per kind, rotating separators and comments) and given to generate: sentence <=> neither Lex nor Parse error; otherwise Parse(start, text, end) of the first non-viable token, or Parse(len, \"\", len) for a proper prefix. Earley is cross-checked against a recursive-descent reference on every text. Structural complement: ACTION/GOTO tables extracted from the checked-in parser.rs are isomorphic to the reference LALR(1) tables of the grammar (67 states).",
+         "Every viable token-kind prefix to depth 15 (quick) / 18 (thorough) and every one-token extension is rendered to text (two lexeme lengths per kind, rotating separators and comments) and given to generate: sentence <=> neither Lex nor Parse error; otherwise Parse(start, text, end) of the first non-viable token, or Parse(len, \"\", len) for a proper prefix. Earley is cross-checked against a recursive-descent reference on every text. Scale probes: every text of the top of the trie (2 782 texts) behind 15 prefixes that move it past byte / token / line 2^8 and 2^16 (blanks, comments, blank lines, 33 000 declarations, long identifiers and attributes), and with each identifier / terminal identifier / attribute token blown up to 255..257 and 65 535..65 537 bytes. Structural complement: ACTION/GOTO tables extracted from the checked-in parser.rs are isomorphic to the reference LALR(1) tables of the grammar (67 states).",
          "R-kiki: the grammar transcribed by hand from parser.kiki (42 productions); beyond the depth bound the claim rests on the table isomorphism and the LR theorem.",
          "DESIGN.md section 3, C09"),
  "C10": ("E4 textsweep", "exploration",
          "bounded-exhaustive exploration of all small files over an item alphabet; oracle: reference validator computing the set of all violations (membership)",
-         "Every file of <=3 (quick, 4.0e6 files) / <=4 (thorough, 6.3e8 files) items over a 204-item alphabet (start / terminal / struct / enum declarations over small name pools incl. other-namespace names, duplicates, wrong capitalisation, near-miss variant lists) plus the repository's should-fail corpus: Ok only if the violation set is empty; a validation error must be a member of the set with matching variant, name / symbol sequence and byte positions.",
+         "Every file of <=3 (quick, 4.0e6 files) / <=4 (thorough, 6.3e8 files) items over a 204-item alphabet (start / terminal / struct / enum declarations over small name pools incl. other-namespace names, duplicates, wrong capitalisation, near-miss variant lists) plus the repository's should-fail corpus, every short identifier in 7 roles, the name-relation space, and large files (17 to 343 variants / nonterminals / terminals / fields) with one violation planted at every pair of boundary positions (3 278 files quick): Ok only if the violation set is empty; a validation error must be a member of the set with matching variant, name / symbol sequence and byte positions.",
          "R-validate implements the catalogue of appendix C; TableConflict on a file with violations is not constrained by the statement.",
          "DESIGN.md section 3, C10"),
  "C12": ("E4 textsweep", "exploration",
@@ -34,12 +34,12 @@ CHECKS = {
          "DESIGN.md section 3, C12"),
  "C13": ("E4 textsweep (+E3)", "exploration",
          "bounded-exhaustive exploration of all type expressions up to a nesting bound; every use site in the emitted text re-tokenised and compared; rustc for real types",
-         "All type expressions of nesting depth <=2 over unit, paths of 1-3 segments and generic callees with 1-2 arguments (1.3e3 quick / 4.6e4 thorough) plus a chain of deeper nestings, spelt with rotating whitespace and comments, each declared as a terminal payload in a grammar exposing 12 use sites (terminal enum, named/tuple fields of a struct and of enum variants, node enum, helper functions): every located occurrence must equal the declaration token for token. For 11 real Rust types rustc asserts type identity at every public use site.",
+         "All type expressions of nesting depth <=2 over unit, paths of 1-3 segments and generic callees with 1-2 arguments (1.3e3 quick / 4.6e4 thorough) plus a chain of deeper nestings, types large in one dimension (identifiers of 31..4096 characters, paths of up to 257 segments, up to 257 generic arguments, two-argument nesting to depth 200) and the name-relation space (lookups by name), spelt with rotating whitespace and comments, each declared as a terminal payload in a grammar exposing 12 use sites (terminal enum, named/tuple fields of a struct and of enum variants, node enum, helper functions): every located occurrence must equal the declaration token for token. For 11 real Rust types rustc asserts type identity at every public use site.",
          "token equality is tested on the whitespace-free concatenation of tokens (unambiguous for this syntax).",
          "DESIGN.md section 3, C13"),
  "C14": ("E5 permexplore", "model_checking",
          "stateless exploration of all hash-iteration-order schedules within a deviation bound, through an order-controllable HashMap/HashSet seam, on the real generate",
-         "Every iteration over a hash collection is a choice point (the seam offers no un-instrumented way to iterate). For each input: identity schedule twice (must agree), then every alternative at each choice point (all n! orders up to a cap, else adjacent transpositions + reversal + rotations), deviation bound 1 (quick) / 2 (thorough); a replayed prefix that passes different choice points is a machinery error. Corpus: repository files incl. should-fail, grammars with conflicts in several states, G(2,2,3,2), and all 1.1e6 invalid files of <=3 items with >=2 simultaneous violations. Oracle: byte-identical RustSrc / identical Debug of the error. A free-running pass with the real RandomState in 8 child processes is supplementary sampling.",
+         "Every iteration over a hash collection is a choice point (the seam offers no un-instrumented way to iterate). For each input: identity schedule twice (must agree), then every alternative at each choice point (all n! orders up to a cap, else adjacent transpositions + reversal + rotations), deviation bound 1 (quick) / 2 (thorough); a replayed prefix that passes different choice points is a machinery error. Corpus: repository files incl. should-fail, grammars with conflicts in several states, G(2,2,3,2), and all 1.1e6 invalid files of <=3 items with >=2 simultaneous violations. Oracle: byte-identical RustSrc / identical Debug of the error. Histories: generate as an operation on the state of the process - every history of 2 calls over a 163-text alphabet (every helper name in every upper-case role, uniquifier chains, one text per error kind) and every history of 3 calls over 10 of them, each in its own fresh child process, every call compared with the same text called alone in a fresh process (28 000 processes quick). A free-running pass with the real RandomState in 8 child processes that visit the corpus in different orders is supplementary sampling.",
          "hash collections reach kiki only through the cfg-switched imports (a source scan reports bypasses in the evidence).",
          "DESIGN.md section 3, C14"),
  "C15": ("E4 textsweep", "exploration",
@@ -49,17 +49,17 @@ CHECKS = {
          "DESIGN.md section 3, C15"),
  "C16": ("E4 textsweep", "exploration",
          "bounded-exhaustive exploration of re-layouts by deviation from the canonical layout; oracle: result equality with error positions mapped through the token correspondence",
-         "For 79 (quick) / ~280 (thorough) base sources (repository files incl. should-fail and parser.kiki, conflict grammars, texts with parse and validation errors of every kind, samples of G(2,2,3,2)): the original layout, all uniform layouts over a 10-element gap alphabet (LF, CRLF, tab, U+2003, comments incl. one with a bare CR, nothing) and every layout differing from the canonical one in 1 gap (quick) / 2 gaps (thorough, <=60 tokens); Ok outputs equal modulo the hash line; errors equal with every ByteIndex sharing a descriptor (start / start+1 / end of token k, source length) between the two layouts.",
+         "For 79 (quick) / ~280 (thorough) base sources (repository files incl. should-fail and parser.kiki, conflict grammars, texts with parse and validation errors of every kind, samples of G(2,2,3,2)): the original layout, all uniform layouts over a 10-element gap alphabet (LF, CRLF, tab, U+2003, comments incl. one with a bare CR, nothing) and every layout differing from the canonical one in 1 gap (quick) / 2 gaps (thorough, <=60 tokens; quick <=36), every Unicode White_Space character as a gap, and 30 large gaps (255..257 and 65 534..65 537 blanks, hundreds of lines, comments of 2^8 and 2^16 bytes, 14 000 comment lines); Ok outputs equal modulo the hash line; errors equal with every ByteIndex sharing a descriptor (start / start+1 / end of token k, source length) between the two layouts.",
          "a re-layout is defined by R-lex token equality; sources that do not lex have no re-layouts.",
          "DESIGN.md section 3, C16"),
  "C05": ("E3 rustc compile-only", "exploration",
          "bounded-exhaustive exploration of the naming space by deviation from a conventional naming; rustc --emit=metadata decides",
-         "Every (role, name) pair (deviation 1, quick) and every pair of such assignments over the curated pool (deviation 2, thorough) over six carrier grammars (enum-rooted, struct-rooted, epsilon+recursion, no terminals, variant-less start, unit-like start); roles: terminal enum, terminals, nonterminals, variants, named fields; name pools: the generator's own helper names and their uniquified forms, letter-less names, plus a pool harvested mechanically from the emitted text, so a helper added later enters by itself; payload type `crate::P` has no derives at all. rustc's full type and borrow check must report no error in the module.",
+         "Every (role, name) pair (deviation 1, quick) and every pair of such assignments over the curated pool (deviation 2, thorough) over six carrier grammars (enum-rooted, struct-rooted, epsilon+recursion, no terminals, variant-less start, unit-like start); roles: terminal enum, terminals, nonterminals, variants, named fields; name pools: the generator's own helper names and their uniquified forms, letter-less names, plus a pool harvested mechanically from the emitted text, so a helper added later enters by itself; payload type `crate::P` has no derives at all. Also compiled: uniquifier chains (State, State2 .. State12 / .. State101), the name-relation space, every accepted grammar of six small scopes (no terminals, one terminal, up to four nonterminals) and of the presentation space, and the scaled families. rustc's full type and borrow check must report no error in the module.",
          "Rust keywords and prelude items are excluded (precondition); rustc 1.95 is the judge; clashes needing three simultaneously hostile names are not reached.",
          "DESIGN.md section 3, C05"),
  "C06": ("E3 rustc client", "exploration",
          "exhaustive enumeration of the presentation space; a generated client module must type-check against the emitted module and its run-time order checks must pass",
-         "All 1 690 presentations (struct / sole variant / first / middle / last variant x named / tuple / empty x <=3 fields x every used/`_` mask x terminal/nonterminal symbols x root/inner carrier; thorough adds recursive symbols, G(2,2,3,2) and seed neighbourhoods), each terminal with its own payload type. The client constructs every type with exactly the declared non-underscore fields (Box<T> for nonterminals, the declared payload type for terminals), destructures without `..`, matches every enum without wildcard, accesses struct fields from a sibling module, binds parse::<Vec<_>>, parse::<MyIter<_>> and parse::<Empty<_>> to fn(_) -> Result<Start, Option<Tok>>; at run time derive(Debug) shows field order and derive(PartialOrd) variant order.",
+         "All 1 690 presentations (struct / sole variant / first / middle / last variant x named / tuple / empty x <=3 fields x every used/`_` mask x terminal/nonterminal symbols x root/inner carrier; thorough adds recursive symbols, G(2,2,3,2) and seed neighbourhoods), each terminal with its own payload type; plus the name-relation space and the scaled families as clients, and a text-level oracle (emitted `pub struct|enum` items and parse signature vs. declarations) over repository grammars, G(2,2,3,2), all valid files of the C10 space, every short identifier in 7 roles and the name-relation space. The client constructs every type with exactly the declared non-underscore fields (Box<T> for nonterminals, the declared payload type for terminals), destructures without `..`, matches every enum without wildcard, accesses struct fields from a sibling module, binds parse::<Vec<_>>, parse::<MyIter<_>> and parse::<Empty<_>> to fn(_) -> Result<Start, Option<Tok>>; at run time derive(Debug) shows field order and derive(PartialOrd) variant order.",
          "rustc 1.95 type checker; fieldsets longer than 3 are outside the exhaustive part.",
          "DESIGN.md section 3, C06"),
  "C01": ("E2 pda + E3 rustc-run", "model_checking",
@@ -74,7 +74,7 @@ CHECKS = {
          "DESIGN.md section 3, C02"),
  "C03": ("E2 pda + E3 rustc-run", "model_checking",
          "explicit-state exploration of the emitted parser's configurations over input tries (model bound to code by trace replay) plus exhaustive runs of the rustc-compiled real parse with a counting iterator",
-         "For every non-sentence explored: Err(Some(t)) carries the very token (kind and payload = index) at the index where the reference canonical LR(1) driver stops, Err(None) exactly when it stops at end of input, and the counting iterator saw at most index+1 calls to next(). " + REAL_NOTE,
+         "For every non-sentence explored: Err(Some(t)) carries the very token (kind and payload = index) at the index where the reference canonical LR(1) driver stops (on grammars with unproductive nonterminals: any index from the first token that no sentence extends to that one; the unchanged tree's departure from the literal statement there is known finding D13), Err(None) exactly when it stops at end of input, and the counting iterator saw at most index+1 calls to next(). " + REAL_NOTE,
          "canonical LR(1) driver as reference (equal to Earley non-viability when all nonterminals are productive, which is self-checked).",
          "DESIGN.md section 3, C03"),
  "C04": ("E1 gramsweep", "model_checking",
@@ -94,7 +94,7 @@ CHECKS = {
          "DESIGN.md section 3, C17"),
  "C18": ("E6 osetmc", "model_checking",
          "explicit-state model checking (stateright BFS to fixpoint) of the real Oset against a BTreeSet reference",
-         "Every history of insert/extend/from_iter/new/default/clone over a 4- (quick) or 8-element (thorough) domain, with all argument sequences up to length 3 / 5 (duplicates, unsorted), is covered because the search closes: the real kiki::Oset object is the model-checker state. Per-state oracle: iteration by value / by reference / through Deref, strict order, contains; per-pair oracle over all reached objects: ==, cmp, partial_cmp, Hash are functions of the element sets and cmp is a total order.",
+         "Every history of insert/extend/from_iter/new/default/clone over a 6- (quick) or 8-element (thorough) domain, with all argument sequences up to length 4 / 5 (duplicates, unsorted), is covered because the search closes: the real kiki::Oset object is the model-checker state. Per-state oracle: iteration by value / by reference / through Deref, strict order, contains; per-pair oracle over all reached objects: ==, cmp, partial_cmp, Hash are functions of the element sets and cmp is a total order.",
          "std BTreeSet is the reference; four element types stand for any Ord type; stateright 0.31 explores the state graph.",
          "DESIGN.md section 3, C18"),
 }
